@@ -15,8 +15,9 @@ RULE = ("random models of every kind and plain dicts; subvalue with partial assi
         "method) with positive / negative / fractional targets; non-trivial = a key with >= 2 labels of which one is "
         "substituted (subvalue/subgraph) or >= 2 terms (normalize); distinct by canonical JSON")
 THEOREMS = "C18_subvalue C18_subgraph C18_override C18_normalize C18_normalize_method C18_normalize_max"
-MODELLED = ("numpy.prod enters as exact products (dyadic coefficients only); symbolic substituted values are not modelled "
-            "(C16 covers the symbolic layer)")
+MODELLED = ("numpy.prod enters as exact products (dyadic coefficients only); symbolic substituted values are not in the model: "
+            "every subvalue / subgraph case is repeated on the implementation with sympy symbols as values, the numbers "
+            "substituted afterwards, and compared with the numeric result")
 
 ALLK = BOOL + SPIN
 
@@ -130,7 +131,48 @@ def run_impl(case):
     except (KeyError, ValueError, TypeError, ZeroDivisionError) as ex:
         out = {"error": type(ex).__name__}
     out["src_items"] = src_items
+    if op in ("subvalue", "subgraph") and "error" not in out:
+        msg = symbolic_twin(case, out)
+        if msg:
+            out["symbolic"] = msg
     return out
+
+
+def symbolic_twin(case, out):
+    """the same call with sympy symbols as substituted values, the symbols replaced by the numbers afterwards: same result"""
+    import sympy
+    import qubovert as qv
+    pairs = case["vals"] if case["op"] == "subvalue" else (case["conn"] or [])
+    if not pairs:
+        return None
+    syms = {l: sympy.Symbol("s%d" % i) for i, (l, _) in enumerate(pairs)}
+    back = {syms[l]: sympy.Rational(v[0], v[1]) for l, v in pairs}
+    obj = build(case)
+    try:
+        if case["op"] == "subvalue":
+            r = qv.utils.subvalue({C.dec(l): syms[l] for l, _ in pairs}, obj)
+        else:
+            nodes = [C.dec(l) for l in case["nodes"]]
+            nodes = set(nodes) if case["nodes_type"] == "set" else tuple(nodes) if case["nodes_type"] == "tuple" else nodes
+            r = qv.utils.subgraph(obj, nodes, {C.dec(l): syms[l] for l, _ in pairs})
+    except (KeyError, ValueError, TypeError, ZeroDivisionError) as ex:
+        return "with symbols as substituted values the call raised %s: %s" % (type(ex).__name__, ex)
+    got = {}
+    for k, v in r.items():
+        v = sympy.nsimplify(sympy.sympify(v).subs(back), rational=True)
+        if not v.is_Rational:
+            return "a symbol is left in the coefficient of %r after substituting the numbers: %s" % (k, v)
+        v = F(int(v.p), int(v.q))
+        if v != 0:
+            kk = tuple(sorted(C.enc(i) for i in k))
+            got[kk] = got.get(kk, F(0)) + v
+    want = {tuple(sorted(k)): F(c[0], c[1]) for k, c in out["terms"] if F(c[0], c[1]) != 0}
+    got = {k: v for k, v in got.items() if v != 0}
+    if got != want:
+        diff = sorted(k for k in set(got) | set(want) if got.get(k) != want.get(k))[:3]
+        return ("symbols as substituted values, replaced by the numbers afterwards, give %r where the numeric call gives %r"
+                % ({k: str(got.get(k)) for k in diff}, {k: str(want.get(k)) for k in diff}))
+    return None
 
 
 def tl(j):
@@ -183,6 +225,8 @@ def oracle(case, out):
         v.append("%s returned %s for a %s" % (op, out["kind"], want_kind))
     if out.get("method_same") is False:
         v.append("method form differs from the function form")
+    if out.get("symbolic"):
+        v.append(out["symbolic"])
     spin = case["kind"] in SPIN
     dom = (1, -1) if spin else (0, 1)
     res = out["terms"]
